@@ -110,7 +110,7 @@ def split_stream(stream):
 class C18(F.PropCheck):
     pid = 'C18'; gen_groups = ['UpdateConsts']; prop_file = 'Properties_C18'
     IN = {'MAP': 0, 'USERBIN': 1, 'ORACLE': 2, 'FAILS': 3, 'HEAP': 4, 'FLASHINIT': 5, 'START': 6, 'SEG': 7, 'DISC': 8, 'ARENA': 9,
-          'SEGFILL': 10, 'NOHALT': 11}
+          'SEGFILL': 10, 'NOHALT': 11, 'ERR': 12}
     OUT = {0: 'BASE', 1: 'NOUPDATE', 2: 'FLAG', 3: 'ERASE', 4: 'WRITE', 5: 'VERIFY', 6: 'UPGRADEREBOOT', 7: 'RESTART', 8: 'FAULT'}
     quick_cases = 2000; thorough_cases = 30000
     trusted_extra = ['C18 driver harness/drv/c18.c + wrapper harness/wrap/c18_update_wrap.c: real supla_update.c driven through '
@@ -328,7 +328,17 @@ class C18(F.PropCheck):
         if rng.random() < 0.7: evs.append(('DISC', [], b''))
         return F.Case(cid, evs, tags)
 
+    ERR_CODES = [-1, -3, -4, -5, -7, -8, -9, -10, -10, -10, -11, -12, -14, -15, -16, -28, -61, 0, 1, 10, 127, -128]
     def gen_cases(self, rng, n, tier):
+        cases = self._gen_cases(rng, n, tier)
+        # the connection may also end through the error (reconnect) callback, with any espconn error code, at any point
+        for c in cases:
+            if rng.random() < 0.45:
+                evs = [('ERR', [rng.choice(self.ERR_CODES)], b'') if (k == 'DISC' and rng.random() < 0.8) else (k, i, d) for (k, i, d) in c.evs]
+                if evs != c.evs: c.evs = evs; c.tags = c.tags + ('err-callback',)
+        return cases
+
+    def _gen_cases(self, rng, n, tier):
         cases = self.gen_big(tier)
         for i in range(n):
             r = rng.random()
@@ -402,7 +412,7 @@ class C18(F.PropCheck):
             elif k in ('SEG', 'SEGFILL') and seen_start:
                 d = seg_bytes((k, ints, data))
                 if 0 < len(d) <= 65535: stream += d
-            if k in ('SEG', 'SEGFILL', 'DISC', 'START'): last_ev = 'SEG' if k == 'SEGFILL' else k
+            if k in ('SEG', 'SEGFILL', 'DISC', 'ERR', 'START'): last_ev = 'SEG' if k == 'SEGFILL' else 'DISC' if k == 'ERR' else k
         base_line = [ints[0] for (k, ints, _) in outs if k == 'BASE']
         if not base_line:
             bad = [k for (k, _, _) in outs if k in ('ERASE', 'WRITE', 'FLAG', 'UPGRADEREBOOT')]
